@@ -9,7 +9,7 @@
 #include "keys.h"
 
 static const char *ARM[] = { "setword", "setword", "setbyte", "set3", "hsfield", "hsfield", "hsfield", "flipbit", "flipbit", "trunc", "extend", "setlen", "setlen",
-                             "type", "ver", "epoch", "seq", "dup", "drop", "swapnext", "refrag", "refrag", "grow", "grow", "grow", "shrink", "fragmove", "cutfront", "vecgrow", "vecgrow", "vecgrow" };
+                             "type", "ver", "epoch", "seq", "dup", "drop", "swapnext", "refrag", "refrag", "grow", "grow", "grow", "shrink", "fragmove", "cutfront", "vecgrow", "vecgrow", "vecgrow", "dupext", "dupext" };
 static const char *INJ[] = { "garbage", "plain23", "replay", "reflect", "cross", "relabel", "alert", "hsmsg", "hsmsg", "ccs", "ccs_tail", "regrow" };
 static const int PMTUS[] = { 1500, 1500, 900, 600, 400 };
 
@@ -35,6 +35,7 @@ static Plan c08_gen(uint64_t seed, int tier, uint64_t index) {
     if (ver >= 3) { p.cfg["pmtu"] = PMTUS[r.below(sizeof PMTUS / sizeof PMTUS[0])]; }
     if (ver < 3 && r.chance(1, 2)) { p.cfg["split"] = 1 + (int64_t) r.below(3); }
     if (r.chance(1, 3)) { p.cfg["sibling"] = 1; }
+    if (r.chance(1, 3)) { p.cfg["sni"] = 1 + (int64_t) r.below(p.get("ver") == 2 ? 2 : 3); p.scfg["expected_name"] = "localhost"; }     // the client sends server_name (+ ALPN, + a private extension)
     if (r.chance(1, 4)) { p.cfg["chain"] = 1; }          // identities presented as two-element chains (leaf + issuer)
     if (r.chance(1, 6) && ver != 2) { p.cfg["resume"] = 1; if (p.get("tickets") && r.chance(1, 2)) { p.cfg["rotate"] = 1; } }
     if (p.get("resume") && p.get("tickets") && r.chance(1, 3)) { p.cfg["tkcut"] = 1 + (int64_t) r.below(140); }
@@ -257,6 +258,21 @@ static std::vector<Plan> c08_fixed(int tier) {
                         v.push_back(p);
                     }
                 }
+            }
+        }
+    }
+    // every extension of the ClientHello duplicated in turn (second copy intact, cut short, altered, emptied), clients that send server_name / ALPN included
+    for (int ver = 0; ver < 5; ver++) {
+        for (int which = 0; which < (tier ? 14 : 10); which++) {
+            for (int var = 0; var < 6; var++) {
+                if (!tier && ver >= 3 && var % 2) { continue; }
+                Plan p; p.seed = 79500 + (uint64_t) ((ver * 14 + which) * 6 + var);
+                p.cfg["ver"] = ver; p.cfg["sni"] = 2; p.scfg["expected_name"] = "localhost";
+                if (ver == 2) { p.cfg["suite"] = TLS_AES_128_GCM_SHA256; p.cfg["sid_kind"] = KK_EC256; } else { p.cfg["suite"] = TLS_ECDHE_RSA_WITH_AES_128_CBC_SHA; }
+                if (ver >= 3) { p.cfg["pmtu"] = 1500; }
+                p.ops.push_back(Op("arm", DIR_C2S, which, var, 0, "dupext"));
+                p.ops.push_back(Op("hs"));
+                v.push_back(p);
             }
         }
     }
